@@ -4,6 +4,7 @@ predicates on the implementation, verdict, evidence."""
 import os, sys, json, time, random, re, subprocess, glob, hashlib
 sys.path.insert(0, os.path.dirname(os.path.abspath(__file__)))
 import vf
+import vmcheck
 from vf import Case
 
 VERIF = vf.VERIF
@@ -116,6 +117,7 @@ class PropCheck:
     rule = ''
     timeout = 600
     release_too = False
+    vm_sample = 20
     extra_assumptions = []
 
     def __init__(self, tier, seed):
@@ -213,6 +215,18 @@ class PropCheck:
                 if self.nontrivial(c, il):
                     nontriv += 1
 
+        # 4b. the extracted program against vm_compute inside Coq on a sample of the same cases
+        vm = {'sampled': 0, 'agreed': 0, 'failed': []}
+        if not replay:
+            sample = [c for c in cases if not c.meta.get('impl_only')]
+            step = max(1, len(sample) // 200)
+            vm = vmcheck.cross_evaluate(sample[::step], model, os.path.join(self.workdir, 'vm'), max_cases=self.vm_sample)
+            if vm['failed']:
+                rp = os.path.join(replay_dir, 'extraction_cross_check.txt')
+                with open(rp, 'w') as f:
+                    f.write('# property %s: the extracted OCaml model and vm_compute inside Coq disagree on cases %s\n# (the tie between theorems and executed model is broken)\n%s\n' % (pid, vm['failed'][:5], vm.get('log', '')))
+                violation_lines.append('VIOLATION property=%s replay=%s no-failing-input-found' % (pid, rp))
+
         # 5. verdict
         known = load_known_findings()
         reported_known = set()
@@ -263,6 +277,7 @@ class PropCheck:
             'evaluations': len(cases), 'distinct_nontrivial': nontriv, 'rule': self.rule, 'samples': samples,
             'disagreements': len(disagreements), 'predicate_failures': len(pred_fail),
             'known_findings_matched': sorted(reported_known),
+            'extraction_cross_check': {'cases_re_evaluated_in_coq_by_vm_compute': vm['sampled'], 'agreed_with_extracted_program': vm['agreed']},
             'ops_executed': sum(len(c.ops) for c in cases),
             'cases_compared_with_model': sum(1 for c in cases if not c.meta.get('impl_only')),
         }
